@@ -269,6 +269,7 @@ func (w *Worker) runPath(cfg RunConfig, prefix []int) *PathResult {
 	pr.Steps = ex.steps
 	for _, f := range pr.Fails {
 		f.Choices = append([]int{}, ex.chooseLog...)
+		f.Labels = append([]string{}, ex.labels...)
 		f.fingerprint()
 	}
 	if w.P.countFns {
